@@ -90,7 +90,10 @@ func (t *trackFS) Remove(name string) error {
 				t.mu.Lock()
 				t.removed = append(t.removed, base)
 				t.mu.Unlock()
-				for _, rd := range t.r.readers {
+				t.r.rmu.Lock()
+				rds := append([]*reader(nil), t.r.readers...)
+				t.r.rmu.Unlock()
+				for _, rd := range rds {
 					if rd.live[base] {
 						t.mu.Lock()
 						if t.violation == "" {
